@@ -489,3 +489,86 @@ func propC20RandomWith(rec *hx.Recorder) func(*rapid.T) {
 }
 
 var propC20Random = propC20RandomWith(nil)
+
+// TestC20GrowEveryOffset: growth is the one operation whose code depends on
+// where head and tail sit in the backing array, and one array position out of a
+// thousand can be the special one. For a family of sizes in all three growth
+// regimes (and the sizes the core actually passes through: 64 doubling to 1024,
+// then +10%: 1127, 1240, 1364 ...) and for EVERY head offset, a full ring is
+// grown by pushing, checked in full against the model, grown a second time,
+// then drained.
+func TestC20GrowEveryOffset(t *testing.T) {
+	rec := hx.NewRecorder(t)
+	var rp ringLayout
+	replay := hx.ReplayFile(&rp)
+	shard, nshards := hx.Shard()
+	sizes := []int{0, 1, 7, 8, 9, 10, 15, 16, 17, 33, 63, 64, 65, 100, 128, 255, 256, 512, 513, 1000, 1023, 1024, 1025, 1100, 1127, 1128, 1240, 1364, 1500, 1501, 1652, 2000}
+	var evals, nontriv int64
+	n := 0
+	for _, sz := range sizes {
+		c := max(sz, 8)
+		for off := 0; off < c; off++ {
+			n++
+			if replay {
+				if rp.Size != sz || rp.Offset != off {
+					continue
+				}
+			} else if n%nshards != shard {
+				continue
+			}
+			for _, fill := range []int{c - 1, c - 2} {
+				l := ringLayout{sz, off, fill}
+				r, m := ringBuild(l)
+				fail := func(stage string, err error) {
+					hx.Fail(t, l, "ring of requested size %d, head offset %d, %d elements, %s: %v", sz, off, fill, stage, err)
+				}
+				if err := ringCheck(r, m); err != nil {
+					fail("before growth", err)
+				}
+				obs := ringObs{}
+				// push through two growth steps; the push that grows the ring is
+				// followed by a full comparison with the model (contents, order,
+				// both iterators, zeroed free slots), the others are plain pushes
+				grows := 0
+				for i := 0; i < 3*c+40 && grows < 2; i++ {
+					if r.IsFull() {
+						_, _, sl := r.VerifLayout()
+						if err := ringStep(r, m, 0, 0, &obs); err != nil {
+							fail(fmt.Sprintf("the push that grows it from %d slots", len(sl)), err)
+						}
+						grows++
+						continue
+					}
+					m.next++
+					r.Push(m.next)
+					m.q = append(m.q, m.next)
+				}
+				if err := ringCheck(r, m); err != nil {
+					fail("after two growth steps", err)
+				}
+				// then drain: every element comes out, in order
+				for i, want := range m.q {
+					got, ok := r.Pop()
+					if !ok || got != want {
+						fail("draining after growth", fmt.Errorf("pop no. %d returned %d,%v, the queue model says %d", i+1, got, ok, want))
+					}
+				}
+				m.q = m.q[:0]
+				if err := ringCheck(r, m); err != nil {
+					fail("after draining", err)
+				}
+				evals++
+				if off > 0 {
+					nontriv++
+				}
+			}
+		}
+	}
+	rec.Bulk(evals, nontriv)
+	rec.Exhaustive = true
+	rec.Class("layouts_grown_twice", evals)
+	rec.Set("sizes", sizes)
+	rec.Set("offsets", "every head offset of every size")
+	rec.Sample(ringLayout{1024, 104, 1023})
+	rec.Sample(ringLayout{1127, 114, 1126})
+}
